@@ -216,20 +216,19 @@ def gen_history(tier, rng):
               ([2, 3, 0], [["new", 0, 0, False], ["new", 1, 1, True]]),      # nothing shared
               ([1, 1, 0], [["new", 2, None, False], ["new", 2, 1, False]])]  # class-level pipelines shared
     probes = [a for a in alpha if a[0] in ("rule", "coll")]
-    kmax = 2 if tier == "quick" else 3
+    # quick: all histories of <= 1 operation x all probes, 120 of length 2; thorough: all of <= 2 x all probes, 800 of length 3
+    full = 1 if tier == "quick" else 2
     for users, pre in setups:
-        for k in range(0, kmax):
+        for k in range(0, full + 2):
             seqs = list(itertools.product(alpha, repeat=k))
-            if tier == "quick" and k == 2:
-                seqs = rng.sample(seqs, 120)
-            elif tier != "quick" and k == 2:
-                seqs = rng.sample(seqs, 500)
+            if k > full:
+                seqs = rng.sample(seqs, 70 if tier == "quick" else 800)
             for hs in seqs:
-                ps = probes if k < 2 else rng.sample(probes, 2)
+                ps = probes if k <= full else rng.sample(probes, 2)
                 for p in ps:
                     out.append(mk_case(users, pre + list(hs) + [p]))
     # random histories up to length 8
-    nrand = 500 if tier == "quick" else 12000
+    nrand = 400 if tier == "quick" else 12000
     for i in range(nrand):
         n = rng.randint(2, 8)
         users = [rng.randrange(len(PDEFS)) for _ in range(3)]
@@ -403,8 +402,8 @@ PROPERTY = Property(
          "convert collection, convert rule} x 3 output formats x 6 pipeline definitions (state, state conditions, chained field mappings, "
          "rule failure); rules share condition strings, detection names and field names; failing conversions at load, pipeline, parse, "
          "undefined identifier, rendering, rendering inside a negated not-equals leaf. Exhaustive: all histories of <= 1 (quick) / <= 2 "
-         "(thorough) operations from a 17-operation alphabet after two backend creations in 3 sharing setups x all probes, sampled at the next "
-         "length; random histories of 2..8 operations. The last operation is the probe; oracle = same probe with new class objects, new "
+         "(thorough) operations from a 17-operation alphabet after two backend creations in 3 sharing setups x all 14 probes, sampled at the next "
+         "length (70 / 800 histories x 2 probes per setup); 400 / 12000 random histories of 2..8 operations incl. collections with a filter document. The last operation is the probe; oracle = same probe with new class objects, new "
          "pipeline objects from the same YAML and cleared caches. non-trivial = probe is a conversion preceded by at least one "
          "conversion/init; distinct by case hash",
     assumptions=["single-threaded histories only: interleavings of the class-attribute swap in not_equals_context_manager are not modelled",
